@@ -101,3 +101,78 @@ Definition g_product_exists (id : Z) : bool := p_exists (obs_product id).
 Definition g_reglist_by_product (id : Z) : reglist * gerr :=
   let '(e, rl) := obs_reglist id in
   (rl, if e =? 0 then None else Some (if e =? 1 then EUnsupportedType else EOther)).
+
+(* ---- registerValue.go: FieldListValue.CommaString ---- *)
+
+(* a FieldListValue: the register and the decoded field set *)
+Record flv := mkFlv { flv_reg : reg; flv_value : list (Z * bool) }.
+
+(* v.value.Fields(): the map Field -> bool; a Field carries its index and its name (the
+   IntToStringMap entry of the register's factory) *)
+Definition field_name (factory : string) (i : Z) : string :=
+  match fl_of factory with
+  | Some f => match assoc i (f_map f) with Some n => n | None => EmptyString end
+  | None => EmptyString
+  end.
+Definition g_fields_map (v : flv) : list ((Z * string) * bool) :=
+  map (fun ib => ((fst ib, field_name (r_factory (flv_reg v)) (fst ib)), snd ib)) (flv_value v).
+
+(* the order in which `range` visits a map is unspecified: [shuffle ks l] inserts each element at
+   the position its key names; every permutation of l is shuffle ks l for some ks (ApiValueFacts) *)
+Fixpoint insert_at {A} (k : nat) (x : A) (l : list A) : list A :=
+  match k, l with
+  | O, _ => x :: l
+  | S _, [] => [x]
+  | S k', y :: r => y :: insert_at k' x r
+  end.
+Fixpoint shuffle {A} (ks : list nat) (l : list A) : list A :=
+  match l with
+  | [] => []
+  | x :: r => insert_at (hd O ks) x (shuffle (tl ks) r)
+  end.
+
+Fixpoint range_pairs {K W V R} (l : list (K * W)) (body : K -> W -> V -> D (lctl V R)) (v : V) : D (lres V R) :=
+  match l with
+  | [] => ret (LDone v)
+  | (k, w) :: rest => bind (body k w v) (fun c =>
+                        match c with
+                        | LCont v' => range_pairs rest body v'
+                        | LBrk v' => ret (LDone v')
+                        | LRet x => ret (LReturned x)
+                        end)
+  end.
+(* for k, w := range m { body } *)
+Definition range_map (K W : Type) {V R} (ord : list nat) (m : list (K * W)) (body : K -> W -> V -> D (lctl V R)) (v : V)
+  : D (lres V R) := range_pairs (shuffle ord m) body v.
+
+Fixpoint range_list (A : Type) {V R} (l : list A) (body : A -> V -> D (lctl V R)) (v : V) : D (lres V R) :=
+  match l with
+  | [] => ret (LDone v)
+  | x :: rest => bind (body x v) (fun c =>
+                   match c with
+                   | LCont v' => range_list A rest body v'
+                   | LBrk v' => ret (LDone v')
+                   | LRet r => ret (LReturned r)
+                   end)
+  end.
+
+(* sort.Slice(l, func(i, j int) bool { return l[i].Idx() < l[j].Idx() }): insertion sort by index (for
+   pairwise distinct indices every correct sort yields this list) *)
+Fixpoint insert_idx (x : Z * string) (l : list (Z * string)) : list (Z * string) :=
+  match l with
+  | [] => [x]
+  | y :: r => if fst x <=? fst y then x :: l else y :: insert_idx x r
+  end.
+Fixpoint g_sort_by_idx (l : list (Z * string)) : list (Z * string) :=
+  match l with
+  | [] => []
+  | x :: r => insert_idx x (g_sort_by_idx r)
+  end.
+
+(* strings.Join *)
+Fixpoint g_join (sep : list byte) (l : list (list byte)) : list byte :=
+  match l with
+  | [] => []
+  | [x] => x
+  | x :: r => x ++ sep ++ g_join sep r
+  end.
